@@ -132,6 +132,14 @@ pub trait Interface: ErrorHandler {
             {
                 let terminator_pos = read_offset + position;
                 let data = &cmd_buf[proc_offset..=terminator_pos];
+
+                // A line feed inside a string or a data block does not end the message. None
+                // of its units is executed before the message has been received completely,
+                // because the header path could not be restored when parsing is resumed.
+                if !parser::is_complete(self.root_node(), data) {
+                    read_offset = terminator_pos + 1;
+                    continue;
+                }
     
                 let remaining = self.run(data, &mut res_buf).await;
 
